@@ -65,6 +65,14 @@ MakeIffBreak == \A x \in Seqs2 : x[2] \notin PrefixBytes =>
    /\ (MakeOf(x)[1] = "ev" /\ MakeOf(x)[3] = "Down") => BreakOf(x) = Ev(MakeOf(x)[2], "Up")
    /\ (BreakOf(x)[1] = "ev") => (MakeOf(x)[1] = "ev" /\ MakeOf(x)[2] = BreakOf(x)[2])
 
+(* negative control (selftest): a decoder that stays in the extended-release context after an
+   undefined code must violate Resync (MC_Set2_neg.cfg overrides Set2Next with this) *)
+BrokenSet2Next(c, b) == IF c = "E0F0" /\ b \notin DOMAIN Ref2E0 THEN "E0F0" ELSE
+  CASE c = "Start" -> IF b = E0 THEN "E0" ELSE IF b = E1 THEN "E1" ELSE IF b = F0 THEN "F0" ELSE "Start"
+    [] c = "E0" -> IF b = F0 THEN "E0F0" ELSE "Start"
+    [] c = "E1" -> IF b = F0 THEN "E1F0" ELSE "Start"
+    [] OTHER -> "Start"
+
 ASSUME C01_SequenceMeaning == SequenceMeaning
 ASSUME C01_PrefixSilent == PrefixSilent
 ASSUME C01_StatusOneShot == StatusOneShot
